@@ -117,6 +117,15 @@ func runC09(r *simrt.Run) {
 
 	for s := 0; s < slots; s++ {
 		t.Span(func() {
+			if s > 0 && t.Choose(12) == 0 {
+				// the producer went down right after its slot: the receives it had pooled are lost and are
+				// produced again later, when the momentum that confirmed the calls is no longer the frontier
+				r.Fault("restart-producer-after-slot")
+				r.Logf("restart P at height %d", p.Height())
+				if err := p.Restart(false); err != nil {
+					r.Fail("restart", "open", "%v", err)
+				}
+			}
 			wl.G.RefreshTokens(p)
 			if bridgeOn {
 				nomsim.FlowByName("bridge-setup").Run(wl.G, p)
@@ -140,8 +149,13 @@ func runC09(r *simrt.Run) {
 			}
 			h0 := p.Height()
 			w.StepSlot()
-			// after the producer ran, no accepted call may be left waiting in an inbox
+			// after the producer ran, no accepted call may be left waiting in an inbox (in a slot of a pillar
+			// nobody hosts - one registered during the run - nothing is produced, and a restarted producer
+			// has not yet re-made the receives it lost)
 			for _, c := range types.EmbeddedContracts {
+				if p.Height() == h0 {
+					break
+				}
 				if hd := inboxHead(p, c); hd != nil {
 					r.Fail("inbox-wedged", callKey(hd), "after the producer's slot the inbox of %v still holds call %s from %v (hash %v)", c, callKey(hd), hd.Address, hd.Hash)
 				}
